@@ -103,8 +103,20 @@ def gen_plan(rng, tier: str, idx: int) -> dict:
     for _ in range(rng.randint(0, 4)):
         name, via, vk, shape = rng.choice(A)
         pre.append(["assign", name, via, M.draw_value(rng, vk, shape)])
+    # assignments made *after* the auto-update setting is in place and right before simulate():
+    # with auto-update off they are still pending (nothing downstream has been recomputed) when
+    # the draw starts - the posterior-predictive idiom "set the parameters, then simulate(skip=...)"
+    pending = []
+    if rng.random() < 0.5:
+        for _ in range(rng.randint(1, 3)):
+            name, via, vk, shape = rng.choice(A)
+            pending.append(["assign", name, via, M.draw_value(rng, vk, shape)])
+        # often make the assigned variable a skipped one, so that its value survives the draw
+        for op in pending:
+            if rng.random() < 0.6 and op[1] in dvars and op[1] not in skip:
+                skip.append(op[1])
     return {"spec": spec, "pre": pre, "auto": rng.random() < 0.5, "seed": rng.randrange(2**31), "skip": skip,
-            "pre_auto": rng.random() < 0.5}
+            "pre_auto": rng.random() < 0.5, "pending": pending}
 
 
 def abbreviate(plan):
@@ -116,6 +128,10 @@ def shrink_candidates(plan):
         p = copy.deepcopy(plan)
         del p["pre"][i]
         yield p
+    for i in range(len(plan.get("pending", [])) - 1, -1, -1):
+        p = copy.deepcopy(plan)
+        del p["pending"][i]
+        yield p
     for i in range(len(plan["skip"]) - 1, -1, -1):
         p = copy.deepcopy(plan)
         del p["skip"][i]
@@ -123,7 +139,7 @@ def shrink_candidates(plan):
     spec = plan["spec"]
     for i in range(len(spec) - 1, -1, -1):
         names = M.item_names(spec[i])
-        if any(op[1] in names for op in plan["pre"]) or any(s_ in names for s_ in plan["skip"]):
+        if any(op[1] in names for op in plan["pre"] + plan.get("pending", [])) or any(s_ in names for s_ in plan["skip"]):
             continue
         new = M.drop_item(spec, i)
         if new is None:
@@ -144,6 +160,12 @@ def prepare(plan, auto: bool):
             model.nodes[op[1]].value = v
     model.update()
     model.auto_update = auto
+    for op in plan.get("pending", []):
+        v = jnp.asarray(op[3], jnp.float32)
+        if op[2] == "var":
+            model.vars[op[1]].value = v
+        else:
+            model.nodes[op[1]].value = v
     return model
 
 
@@ -269,6 +291,7 @@ def execute(plan: dict) -> dict:
     counters["vars_drawn"] = n_drawn
     counters["probe.auto_update_off"] = 1  # both settings are exercised in every run
     counters["probe.tight_link_via_cached_calc"] = int(any(it.get("tight") and spec[it["tight"]["mid"]]["mode"] == "cached" for it in spec if it["k"] == "var"))
+    counters["probe.pending_assignments_before_simulate"] = int(bool(plan.get("pending")))
     counters["probe.tight_link_via_input_group"] = int(any(it.get("tight") and spec[it["tight"]["mid"]].get("fn") == "group_lin" for it in spec if it["k"] == "var"))
     counters["probe.tight_child_transformed"] = int(any(it.get("tight") and it.get("transform") for it in spec if it["k"] == "var"))
     counters["probe.vector_sample_shape"] = int(any(it["k"] == "var" and it.get("dist") and it.get("shape") == [3] for it in spec))
